@@ -27,6 +27,7 @@ const (
 	phKeepAlive  = "keepAlive"   // every session keeps sending with gaps of natTimeout/5 for 1.5 x natTimeout: it must keep its relay socket
 	phPackFail   = "packFail"    // after everything is idle: new sessions whose datagrams ALL fail to pack (target name does not resolve / payload exceeds the outbound client's MTU), then silence: they must be evicted too
 	phSteady     = "steady"      // every session sends one datagram every natTimeout/30 for 2.5 x natTimeout: the destination must see one source address only
+	phRefused    = "refused"     // every session: a burst of N datagrams the kernel refuses to send (target port 0) back to back, then a paced valid one
 	phExpiry     = "expiryProbe" // one datagram per session timed around the instant the idle timeout fires (packet arrives while the session is torn down)
 )
 
@@ -103,6 +104,8 @@ func drawPlan(rt *rapid.T) *plan {
 		switch k {
 		case phBurst:
 			ph.N = rapid.SampledFrom([]int{1, 8, 64, 200}).Draw(rt, "burstN")
+		case phRefused:
+			ph.N = rapid.SampledFrom([]int{2, 8, 40}).Draw(rt, "refusedN")
 		case phPauseShort:
 			ph.Pct = rapid.SampledFrom([]int{5, 20, 50}).Draw(rt, "pausePct")
 		case phBlockInit, phReject, phFailInit:
@@ -114,7 +117,7 @@ func drawPlan(rt *rapid.T) *plan {
 		return ph
 	}
 	if evict {
-		alphabet := []string{phEstablish, phBurst, phFlood, phPauseShort, phPauseEvict, phPauseEvict, phResend, phReject, phFailInit, phExpiry, phExpiry}
+		alphabet := []string{phEstablish, phBurst, phFlood, phPauseShort, phPauseEvict, phPauseEvict, phResend, phReject, phFailInit, phExpiry, phExpiry, phRefused}
 		if p.NATTimeoutMs >= 400 && p.NATTimeoutMs <= 700 {
 			alphabet = append(alphabet, phKeepAlive, phKeepAlive)
 		}
@@ -144,7 +147,7 @@ func drawPlan(rt *rapid.T) *plan {
 	} else {
 		// Stop shape: a prefix of arbitrary phases, then the traffic that is flowing when Stop comes,
 		// then optionally sessions that are being initialised at that moment
-		prefix := []string{phEstablish, phEstablish, phBurst, phPauseShort, phResend, phBlockInit, phReject, phFailInit, phStream, phFlood}
+		prefix := []string{phEstablish, phEstablish, phBurst, phPauseShort, phResend, phBlockInit, phReject, phFailInit, phStream, phFlood, phRefused}
 		n := rapid.IntRange(0, 3).Draw(rt, "nPrefix")
 		for i := 0; i < n; i++ {
 			p.Phases = append(p.Phases, drawPhase(prefix))
